@@ -115,7 +115,8 @@ def _seq_stage(ctx, prop, histories, extra=()):
     # the same histories under valgrind memcheck (plain build): results that depend on uninitialised memory, which no compiler sanitizer here reports
     ctx.stage("histories-memcheck", "seqmodel", "dbg+memcheck", worker_args(ctx.seed + 70001, max(32, histories // 100), 16, ["--prop", prop] + [x for x in extra if x != "--directed"]), timeout=3600)
     ctx.floors = _seq_floors() + [("histories_with_companion_thread", 100), ("views_held_across_own_remove", 100), ("companion_drains", 100),
-                                  ("stats_checks_with_deferred_reclamation", 1000)]
+                                  ("stats_checks_with_deferred_reclamation", 1000), ("steps_on_completely_full_I256", 1000),
+                                  ("clears_of_completely_full_I256", 10), ("destroyed_with_completely_full_I256", 10)]
     ctx.assumptions = list(SEQ_ASSUME)
 
 
@@ -125,7 +126,7 @@ def c01(ctx):
     _seq_stage(ctx, "C01", n, ["--directed"])
     ctx.rule = ("generated histories (insert incl. duplicates, remove incl. absent keys, get, empty, clear, quiescent states for olc_db) of ~300-900 "
                 "operations over key-set families {dense, sparse, boundary, per-byte alphabets of sizes 1,2,3,4,5,16,17,48,49,256, zero-terminated "
-                "mixed-length strings, deep fixed-length strings, encoder-shaped keys}, round-robin over {db, mutex_db, olc_db} x {uint64, key_view}; "
+                "mixed-length strings, deep fixed-length strings, encoder-shaped keys, full256 (one node filled with all 256 children - where the 8-bit child counter wraps -, kept around the 255/256 boundary, cleared and destroyed while full)}, round-robin over {db, mutex_db, olc_db} x {uint64, key_view}; "
                 "every return value compared with a byte-string map, up to 24 held value views re-read after every operation. Half of the olc_db histories run with a second "
                 "QSBR-registered companion thread (it only passes through quiescent states on request), so that reclamation is really deferred: there the views of an "
                 "entry survive the caller's own remove and are re-read until the caller's next quiescent state. A history is "
@@ -284,12 +285,21 @@ def _qsbr_stages(ctx, prop, cases, execs, seed_off=0):
     ctx.stage("sched-dbg-asan", "qsbr_conc", "dbg-asan", worker_args(ctx.seed + seed_off, cases, 16, extra), timeout=3600)
     ctx.stage("sched-rel", "qsbr_conc", "rel", worker_args(ctx.seed + seed_off + 4242, cases, 16, extra), timeout=3600)
     ctx.stage("sched-rel-memcheck", "qsbr_conc", "rel+memcheck", worker_args(ctx.seed + seed_off + 5353, max(160, cases // 8), 16, extra), timeout=3600)
+    # free-running RCU-style stress (qsbr_free): plain reads by reference holders vs. the plain poison write + free of the reclaimer are ordered
+    # only by what QSBR itself synchronises, so a weakened memory order is a TSan data race here (the serialized scheduler assumes SC)
+    t = ctx.tier == "thorough"
+    rounds = scaled(40000 if t else 2400)
+    tsan_cfg = "rel-tsan-nostats" if prop == "C05" else "rel-tsan"  # without / with the statistics mutexes (they add happens-before edges)
+    ctx.stage("free-tsan", "qsbr_free", tsan_cfg, [["--seed", str((ctx.seed + seed_off) * 100 + i), "--first", "0", "--cases", str(rounds)] for i in range(8)], timeout=3600, jobs=8)
+    ctx.stage("free-asan", "qsbr_free", "dbg-asan", [["--seed", str((ctx.seed + seed_off) * 100 + 50 + i), "--first", "0", "--cases", str(rounds)] for i in range(8)], timeout=3600, jobs=8)
     ctx.assumptions = ["sequentially consistent interleavings at hook granularity; x86-TSO",
                        "shadow registration uses call/return boundaries on the permissive side: a thread counts as registered from the return of its start/resume to the "
                        "call of its pause/exit; it is discharged by a quiescent state or pause that returns after the retire, or while inside such a call / exiting / paused",
                        "preconditions respected: no quiescent/pause with live references, no retire while paused"]
     ctx.floors = [("episodes", 5000), ("retires_with_other_threads_registered", 5000), ("frees_deferred", 2000), ("frees_of_orphaned_requests", 1000),
-                  ("epoch_changes", 5000), ("drains_completed", 2000), ("shutdowns_checked", 2000), ("thread_count_checks", 10000), ("intra_operation_switches", 5000)]
+                  ("epoch_changes", 5000), ("drains_completed", 2000), ("shutdowns_checked", 2000), ("thread_count_checks", 10000), ("intra_operation_switches", 5000),
+                  ("rounds", 10000), ("uses_of_held_references", 100000), ("frees_executed_by_another_thread_than_the_requester", 100000), ("exits_with_requests_pending", 10000),
+                  ("pause_resume", 10000), ("threads_spawned_mid_round", 1000)]
 
 
 @prop("C05")
@@ -505,6 +515,7 @@ def setup_specs():
         ("olc_conc", "dbg-asan", {}),
         ("olc_conc", "rel", {}), ("olc_conc", "rel-tsan", {}), ("lincheck_test", "rel", {}),
         ("qsbr_conc", "dbg-asan", {}), ("qsbr_conc", "rel", {}),
+        ("qsbr_free", "rel-tsan-nostats", {}), ("qsbr_free", "rel-tsan", {}), ("qsbr_free", "dbg-asan", {}),
         ("oom", "dbg-oom", OOM_BUILD),
         ("lock_conc", "dbg", {}),
     ] + [("cfgdiff", c, {}) for c in CFG_SUBSET] + [
